@@ -207,19 +207,23 @@ class Compiler:
             name = get_target_name(target)
             c_targets.append(EvalTarget(c_expr, name, is_aggregate(c_expr)))
 
-            columns, aggregates = get_columns_and_aggregates(c_expr)
-
-            # Check for mixed aggregates and non-aggregates.
-            if columns and aggregates:
-                raise CompilationError('mixed aggregates and non-aggregates are not allowed')
-
-            # Check for aggregates of aggregates.
-            for aggregate in aggregates:
-                for child in aggregate.childnodes():
-                    if is_aggregate(child):
-                        raise CompilationError('aggregates of aggregates are not allowed')
+            self._check_aggregates(c_expr)
 
         return c_targets
+
+    @staticmethod
+    def _check_aggregates(c_expr):
+        columns, aggregates = get_columns_and_aggregates(c_expr)
+
+        # Check for mixed aggregates and non-aggregates.
+        if columns and aggregates:
+            raise CompilationError('mixed aggregates and non-aggregates are not allowed')
+
+        # Check for aggregates of aggregates.
+        for aggregate in aggregates:
+            for child in aggregate.childnodes():
+                if is_aggregate(child):
+                    raise CompilationError('aggregates of aggregates are not allowed')
 
     def _compile_order_by(self, order_by, c_targets):
         """Process an order-by clause.
@@ -277,6 +281,7 @@ class Compiler:
                 # targets to evaluate and index into that new target.
                 if index is None:
                     c_expr = self._compile(column)
+                    self._check_aggregates(c_expr)
 
                     # Attempt to reconcile the expression with one of the existing
                     # target expressions.
@@ -431,6 +436,7 @@ class Compiler:
                 c_expr = self._compile(group_by.having)
                 if not is_aggregate(c_expr):
                     raise CompilationError('the HAVING clause must be an aggregate expression')
+                self._check_aggregates(c_expr)
                 having_index = len(new_targets)
                 new_targets.append(EvalTarget(c_expr, None, True))
                 c_target_expressions.append(c_expr)
